@@ -283,7 +283,14 @@ class WireBuilder:
         return d
 
 
-def plain_json(I, v):
+def plain_json(I, v, _depth=0):
+    if _depth > 60:
+        from .symexec import CyclicValue
+        raise CyclicValue("value nested deeper than 60 levels")
+    return _plain_json(I, v, _depth)
+
+
+def _plain_json(I, v, _depth):
     """z3 Bool / python bool: the value is plain JSON data all the way down (for python-side structures), top-level
     for JV terms (their sub-terms come from the input, which is JSON by assumption, or are checked element-wise)"""
     Z = I.Z
@@ -299,13 +306,13 @@ def plain_json(I, v):
     if isinstance(v, STuple):
         return False
     if isinstance(v, SList):
-        cs = [plain_json(I, x) for x in v.items]
+        cs = [plain_json(I, x, _depth + 1) for x in v.items]
         if any(c is False for c in cs):
             return False
         cs = [c for c in cs if c is not True]
         return z3.And(*cs) if cs else True
     if isinstance(v, SDict):
-        cs = [plain_json(I, x) for x in v.items.values()]
+        cs = [plain_json(I, x, _depth + 1) for x in v.items.values()]
         if v.rest is not None and v.rest_maps:
             I.rest_term(v)
             cs.append(getattr(v, "_rest_plain", True))
